@@ -567,12 +567,41 @@ def insitu_run(tdgl, a, tmp):
     REQ_GAMMA = float(a.get("gamma", 10.0))
     REQ_U = float(a["u"]) if a.get("u") is not None else 5.79
     lkw = dict(coherence_length=1.0, london_lambda=2.0, thickness=0.1, gamma=a.get("gamma", 10.0))
+    if a.get("conductivity") is not None:
+        lkw["conductivity"] = a["conductivity"]
     if a.get("u") is not None:
         lkw["u"] = a["u"]
     dev = tdgl.Device(base.name, layer=tdgl.Layer(**lkw), film=base.film, holes=base.holes, terminals=list(base.terminals),
                       probe_points=base.probe_points, length_units=base.length_units)
     dev.mesh = base.mesh
-    REQ_SITES = 1.0 * np.asarray(base.mesh.sites)            # positions in length units: xi (asked for: 1.0) times the mesh sites
+    # route: the device that is SIMULATED is derived from the constructed one through the public API (gamma, u, xi asked for stay the
+    # oracle's values whatever the derived objects report)
+    route = a.get("route")
+    pre_solution = None
+    if route:
+        import warnings as _w
+
+        with _w.catch_warnings():
+            _w.simplefilter("ignore")
+            if route == "copy":
+                dev = dev.copy()
+            elif route == "rotate":
+                dev = dev.rotate(30.0)
+            elif route == "scale":
+                dev = dev.scale(xfact=-1.0, yfact=1.0)
+            elif route == "translate":
+                dev = dev.translate(dx=0.5, dy=-0.25)
+            elif route == "hdf5":
+                path = os.path.join(work, "device.h5")
+                dev.to_hdf5(path)
+                dev = tdgl.Device.from_hdf5(path)
+            elif route == "solution-device":
+                pre_solution = True       # resolved below, after the options/drive are known
+            else:
+                raise ValueError(route)
+            if dev.mesh is None:
+                dev.make_mesh(max_edge_length=a.get("mel", 0.8), smooth=0)
+    REQ_SITES = 1.0 * np.asarray(dev.mesh.sites)            # positions in length units: xi (asked for: 1.0) times the mesh sites
 
     # decoys: further Layers/Devices with OTHER (gamma, u), built after the simulated device and before the solve (a sweep that
     # builds all its devices first): the run must still use the values asked for ITS layer
@@ -682,6 +711,11 @@ def insitu_run(tdgl, a, tmp):
         if a.get("werror"):
             # numerical warnings are errors in this process state (as under python -W error::RuntimeWarning)
             warnings.simplefilter("error", RuntimeWarning)
+        if pre_solution:
+            # the simulated device is Solution.from_hdf5(path).device of an earlier (short) solve of the constructed device
+            sol0 = tdgl.solve(dev, opts("pre.h5", a.get("pre_solve_time", 0.05)), **kw)
+            dev = tdgl.Solution.from_hdf5(sol0.path).device
+            phase["label"] = "solution-device"
         if scenario == "plain":
             tdgl.solve(dev, opts("a.h5", a["solve_time"]), **kw)
         elif scenario == "second-solve":
@@ -734,5 +768,7 @@ def insitu_run(tdgl, a, tmp):
     eps_used = requested_epsilon(records[-1]["time"]) if records else np.ones(1)
     return dict(run=a["label"], requested_gamma=REQ_GAMMA, requested_u=REQ_U, u_passed=a.get("u") is not None, epsilon_form=form,
                 epsilon_fractional_sites=int(np.sum((eps_used != 1.0) & (eps_used != np.round(eps_used)))),
-                decoys=[list(d) for d in a.get("decoys", [])], traces=traces, n_updates=len(records), n_retried=sum(1 for r in records if r["refused"]),
+                decoys=[list(d) for d in a.get("decoys", [])], route=route, conductivity_set=a.get("conductivity") is not None,
+                n_updates_on_derived=(sum(1 for r in records if r["phase"] == "solution-device") if route == "solution-device" else len(records)),
+                traces=traces, n_updates=len(records), n_retried=sum(1 for r in records if r["refused"]),
                 phases=sorted(first_of_phase), max_iterations=max((r["iterations"] for r in records), default=0))
